@@ -196,3 +196,49 @@ Proof.
   unfold inverse_ok_b, eqb, Eqb_list. apply list_eqb_sound.
   apply list_eqb_sound. intros x y H. apply Nat.eqb_eq, H.
 Qed.
+
+(* ------------------------------------------------------------------ *)
+(* one conversion step.  Positions popped in strictly descending order (what
+   sorted(con, reverse=True) yields for distinct positions) read the ORIGINAL entries ... *)
+Fixpoint desc_from (b : nat) (ds : list nat) : Prop :=
+  match ds with [] => True | d :: ds' => d < b /\ desc_from d ds' end.
+
+Lemma pop_desc_reads_original ds : forall b ids acc,
+  desc_from b ds -> b <= length ids ->
+  snd (fold_left (fun s c => (pop_nth c (fst s), snd s ++ [nth c (fst s) 0])) ds (ids, acc))
+  = acc ++ map (fun c => nth c ids 0) ds
+  /\ forall ids', (forall k, k < b -> nth k ids' 0 = nth k ids 0) ->
+     snd (fold_left (fun s c => (pop_nth c (fst s), snd s ++ [nth c (fst s) 0])) ds (ids', acc))
+     = acc ++ map (fun c => nth c ids 0) ds.
+Proof.
+  induction ds as [|d ds IH]; intros b ids acc Hd Hb.
+  - cbn. rewrite app_nil_r. split; [reflexivity|intros; reflexivity].
+  - cbn [desc_from] in Hd. destruct Hd as [Hdb Hd].
+    assert (Hgen : forall ids', (forall k, k < b -> nth k ids' 0 = nth k ids 0) ->
+      snd (fold_left (fun s c => (pop_nth c (fst s), snd s ++ [nth c (fst s) 0])) (d :: ds) (ids', acc))
+      = acc ++ map (fun c => nth c ids 0) (d :: ds)).
+    { intros ids' Hagree. cbn [fold_left fst snd map].
+      destruct (IH d ids (acc ++ [nth d ids' 0]) Hd ltac:(lia)) as [_ IH2].
+      rewrite (IH2 (pop_nth d ids')).
+      - rewrite (Hagree d Hdb), <- app_assoc. reflexivity.
+      - intros k Hk. rewrite nth_pop_nth. destruct (Nat.ltb_spec k d); [apply Hagree; lia|lia]. }
+    split; [apply Hgen; intros; reflexivity|exact Hgen].
+Qed.
+
+(* ... and bisect_left on the (strictly increasing) id list maps those entries back to the
+   positions: the step of ssa_to_linear undoes the step of linear_to_ssa *)
+Lemma step_positions_recovered ids ds :
+  strictly_increasing ids -> desc_from (length ids) ds ->
+  map (bisect_left ids)
+      (snd (fold_left (fun s c => (pop_nth c (fst s), snd s ++ [nth c (fst s) 0])) ds (ids, []))) = ds.
+Proof.
+  intros Hs Hd. destruct (pop_desc_reads_original ds (length ids) ids [] Hd (le_n _)) as [E _].
+  rewrite E. cbn [app]. rewrite map_map.
+  assert (Hall : forall ds b, desc_from b ds -> b <= length ids ->
+            map (fun c => bisect_left ids (nth c ids 0)) ds = ds).
+  { clear -Hs. induction ds as [|d ds IH]; intros b Hd Hb; [reflexivity|].
+    cbn [desc_from] in Hd. destruct Hd as [Hdb Hd]. cbn [map]. f_equal.
+    - apply bisect_left_exact; [exact Hs|lia].
+    - apply (IH d Hd). lia. }
+  apply (Hall ds (length ids) Hd (le_n _)).
+Qed.
